@@ -216,7 +216,9 @@ fn main() {
             check_one::<i64>(&run, "i64/diag", a, code, &two_flags);
             check_one::<BigInt>(&run, "BigInt/diag", a, code, &[[true; 4]]);
         });
-        let gd: Vec<Quad<-1>> = [(0, 0), (1, 0), (1, 1), (2, 0), (1, 2), (3, 0), (2, 2), (3, 3), (5, 0)].map(|(a, b)| Quad::of(a, b)).to_vec();
+        // (1,2) and (2,1) are the two non-associate primes above the split prime 5: equal norms, neither
+        // divides the other (seed `C15-quadint-divides-by-norm`: a norm-only divisibility test)
+        let gd: Vec<Quad<-1>> = [(0, 0), (1, 0), (1, 1), (2, 0), (1, 2), (2, 1), (3, 0), (2, 2), (3, 3), (5, 0)].map(|(a, b)| Quad::of(a, b)).to_vec();
         let mut gdiags: Vec<(RMat<Quad<-1>>, String)> = vec![];
         for idx in 0..gd.len().pow(3) {
             let mut x = idx;
@@ -233,6 +235,27 @@ fn main() {
         run.par_for(gdiags.len(), |i| {
             let (a, code) = &gdiags[i];
             check_one::<GaussInt<i64>>(&run, "GaussInt<i64>/diag", a, code, &two_flags);
+        });
+    }
+    {
+        // Eisenstein diagonals; (3,1) and (2,-1) are the two primes above the split prime 7
+        let ed: Vec<Quad<-3>> = [(0, 0), (1, 0), (1, 1), (2, 0), (2, 1), (3, 1), (2, -1), (3, 0), (7, 0)].map(|(a, b)| Quad::of(a, b)).to_vec();
+        let mut ediags: Vec<(RMat<Quad<-3>>, String)> = vec![];
+        for idx in 0..ed.len().pow(3) {
+            let mut x = idx;
+            let mut a = RMat::<Quad<-3>>::zero(3, 3);
+            let mut code = String::new();
+            for i in 0..3 {
+                a.set(i, i, ed[x % ed.len()].clone());
+                code.push_str(&format!("{:?},", ed[x % ed.len()]));
+                x /= ed.len();
+            }
+            ediags.push((a, format!("diag({code})")));
+        }
+        run.add("inputs", ediags.len() as u64);
+        run.par_for(ediags.len(), |i| {
+            let (a, code) = &ediags[i];
+            check_one::<EisenInt<i64>>(&run, "EisenInt<i64>/diag", a, code, &two_flags);
         });
     }
     // ---- finite fields ----------------------------------------------------------------------------------
